@@ -18,7 +18,7 @@ package main
 //	                     nodes (tries of <= 10 nodes, else "skip"): damage a memory copy, query, repair at a version that
 //	                     alternates between the creation version and a different one
 //	                     -> "ok <removed idx>:<has>:<missing idx>:<lookup classes>:<repair>;..."
-//	                     lookup classes, one per path used in the case (sorted): v value, n notpresent, m nodenotfound
+//	                     lookup classes, one per path used by an earlier ins/del/get of the case (sorted): v value, n notpresent, m nodenotfound
 //
 // Oracle (independent of the code under test: own parser of the stored bytes, own walk of (store snapshot, root)):
 // has == (some node reachable through present nodes is absent); miss == exactly that set; a lookup whose walk crosses an
@@ -377,14 +377,8 @@ func runC17(ops []string) CaseResult {
 	res := CaseResult{}
 	tags := map[string]bool{}
 	removals, repairs := 0, 0
-	// the paths the composite ops look up: every path mentioned anywhere in the case
+	// the paths the composite ops look up: every path mentioned by an earlier ins / del / get of the case
 	used := map[string]bool{}
-	for _, op := range ops {
-		f := strings.Fields(op)
-		if (f[0] == "ins" || f[0] == "del" || f[0] == "get") && len(f) > 1 {
-			used[pathOf(f[1])] = true
-		}
-	}
 	for i, op := range ops {
 		fail := func(f string, a ...interface{}) {
 			if len(res.Fails) < 20 {
@@ -394,6 +388,9 @@ func runC17(ops []string) CaseResult {
 		r := rand.New(rand.NewSource(int64(i)*7919 + int64(len(ops))))
 		f := strings.Fields(op)
 		var out string
+		if (f[0] == "ins" || f[0] == "del" || f[0] == "get") && len(f) > 1 {
+			used[pathOf(f[1])] = true
+		}
 		if st == nil && f[0] != "new" {
 			res.Outs = append(res.Outs, "bad-op")
 			res.Fails = append(res.Fails, "harness: op before new: "+op)
